@@ -150,7 +150,7 @@ def unknown_typed(max_size=6, xml_safe=False):
 
 
 # well-formed XML content typed rdf:XMLLiteral: 1-3 sibling elements, each declaring its namespace itself (the same namespace may be
-# declared on several siblings), children in the scope of their parent; no comments, no prefixes that only attributes use
+# declared on several siblings), children in the scope of their parent; now and then a prefix that only an attribute uses; no comments
 _XML_TEXT = ["t", "a b", "\u00e9\U0001F600", "&amp;", "&lt;x&gt;", "", " "]
 _XML_NS = ["http://www.w3.org/1999/xhtml", "http://ex.org/ns#"]
 
@@ -160,6 +160,9 @@ def xml_fragments(draw):
     def element(kind, ns, depth):
         name = {"plain": "a", "default": "p", "prefixed": "x:e"}[kind]
         attrs = draw(st.sampled_from(["", "", ' b="1"', ' b="1" c="&amp;2"']))
+        if ns is not None and draw(st.integers(0, 4)) == 0:
+            # a namespace that only an attribute uses
+            attrs = ' xmlns:y="http://ex.org/attr#" y:b="1"' + (attrs if "b=" not in attrs else "")
         kids = []
         for _ in range(draw(st.integers(0, 2))):
             if depth > 0 and draw(st.booleans()):
